@@ -33,7 +33,20 @@ ROOT = os.path.dirname(os.path.dirname(os.path.abspath(__file__)))
 CUR = ["?"]          # function being translated (for error messages)
 
 
+LAST_MSG = [""]
+
+
+def group_of(gname):
+    """the property whose tie file (Proofs/GlueTie<Cxx>.v) states the lemma about Glue.<gname>"""
+    import glob
+    for f in sorted(glob.glob(os.path.join(ROOT, "coq", "Proofs", "GlueTieC*.v"))):
+        if re.search(r"\bGlue\.%s\b" % re.escape(gname), open(f).read()):
+            return os.path.basename(f)[len("GlueTie"):-2]
+    return None
+
+
 def die(msg):
+    LAST_MSG[0] = "%s: %s" % (CUR[0], msg)
     sys.stderr.write("rs2v_glue: %s: %s\n" % (CUR[0], msg))
     sys.exit(1)
 
@@ -1150,6 +1163,8 @@ def main():
            "From Bnum.Model Require Import Digit Core Shift AddSub Mul Div Bits Pow.", "", "Module Glue.", ""]
     count = {}
     seen = set()
+    failed = {}
+    group = sys.argv[sys.argv.index("--for") + 1] if "--for" in sys.argv else None
     for path, macro, selfs, wanted, skip in FILES:
         CUR[0] = path
         src = strip_comments(open(os.path.join(REPO, path)).read())
@@ -1172,7 +1187,14 @@ def main():
         for S in selfs:
             for f in fns:
                 if f[0] in wanted:
-                    gname, text = translate_fn(path, S, *f)
+                    gname = "%s_%s" % (S, f[0])
+                    try:
+                        gname, text = translate_fn(path, S, *f)
+                    except (SystemExit, Exception) as ex:
+                        # this function only: a stub, so that only ITS tie lemma (and its property's check) breaks
+                        failed[gname] = LAST_MSG[0] if isinstance(ex, SystemExit) else repr(ex)
+                        text = "(* NOT TRANSLATED: %s *)\nDefinition %s : unit := tt.\n" % (
+                            failed[gname].replace("*)", "* )").replace("(*", "( *"), gname)
                     if gname in seen:
                         die("duplicate generated name " + gname)
                     seen.add(gname)
@@ -1183,6 +1205,10 @@ def main():
     p = os.path.join(ROOT, "coq", "Generated", "Glue.v")
     if not os.path.exists(p) or open(p).read() != txt:
         open(p, "w").write(txt)
+    if failed:
+        sys.stderr.write("rs2v_glue: not translated (stub emitted, its tie lemma will not check): %s\n" % ", ".join(sorted(failed)))
+        if group is None or any(group_of(g) in (group, None) for g in failed):
+            return 1
     if os.environ.get("RS2V_VERBOSE"):
         for k in count:
             print("%-28s %d" % (k, count[k]))
